@@ -31,6 +31,9 @@ pub struct History {
     pub store: Store,
     pub nodes: Vec<Node>,
     pub base_len: usize,
+    /// which base room: 'A' (with power levels), 'B' (without), 'C' (A plus an abandoned
+    /// power-levels fork that was merged: PLX, topic under PLX, PLY, merge event PL3)
+    pub base_kind: char,
     /// the actions that produced the appended part (for replay files)
     pub trail: Vec<Action>,
 }
@@ -69,7 +72,13 @@ fn pl_content(users: &[(&str, i64)]) -> Value {
 /// (name, sender, type, state_key, content)
 pub type Template = (&'static str, &'static str, &'static str, &'static str, fn() -> Value);
 
-pub const TEMPLATES: [Template; 14] = [
+fn pl_content_with(field: &str, level: i64) -> Value {
+    let mut c = pl_content(&[(C, 100), (M, 50)]);
+    c[field] = json!(level);
+    c
+}
+
+pub const TEMPLATES: [Template; 17] = [
     ("C promotes M to 100", C, "m.room.power_levels", "", || pl_content(&[(C, 100), (M, 100)])),
     ("C demotes M", C, "m.room.power_levels", "", || pl_content(&[(C, 100)])),
     ("M promotes U to 50", M, "m.room.power_levels", "", || pl_content(&[(C, 100), (M, 50), (U, 50)])),
@@ -84,6 +93,10 @@ pub const TEMPLATES: [Template; 14] = [
     ("U sets name", U, "m.room.name", "", || json!({"name": "by u"})),
     ("Z joins", Z, "m.room.member", Z, || json!({"membership": "join"})),
     ("C sets topic", C, "m.room.topic", "", || json!({"topic": "by c"})),
+    // three power-level contents by the creator that are all legal successors of each other
+    ("C sets invite level 50", C, "m.room.power_levels", "", || pl_content_with("invite", 50)),
+    ("C sets kick level 75", C, "m.room.power_levels", "", || pl_content_with("kick", 75)),
+    ("C sets redact level 75", C, "m.room.power_levels", "", || pl_content_with("redact", 75)),
 ];
 
 /// names for appended events: creation order and id order deliberately disagree
@@ -128,7 +141,14 @@ impl History {
     /// Base room. `with_power_levels = false` gives room B of the design (events without a
     /// power-level ancestor exist).
     pub fn base(v: u8, with_power_levels: bool) -> History {
-        let mut h = History { v, store: Store::default(), nodes: vec![], base_len: 0, trail: vec![] };
+        let mut h = History {
+            v,
+            store: Store::default(),
+            nodes: vec![],
+            base_len: 0,
+            base_kind: if with_power_levels { 'A' } else { 'B' },
+            trail: vec![],
+        };
         let mut create_content = json!({"room_version": v.to_string()});
         if v <= 10 {
             create_content["creator"] = json!(C);
@@ -157,6 +177,30 @@ impl History {
         h
     }
 
+    /// Base room by kind ('A', 'B', 'C'). Room C = room A followed by: creator sets invite level
+    /// (PLX) on the tip; mod sets the topic on top of PLX; creator sets kick level (PLY) on the
+    /// old tip; creator sets redact level on top of both forks (a merge event). Exploration then
+    /// starts from a state whose history already contains an abandoned power-levels fork.
+    pub fn base_kind(v: u8, kind: char) -> History {
+        match kind {
+            'A' => History::base(v, true),
+            'B' => History::base(v, false),
+            _ => {
+                let mut h = History::base(v, true);
+                let tip = h.nodes.len() - 1;
+                for (t, p, q) in [(14usize, tip, None), (9, tip + 1, None), (15, tip, None), (16, tip + 2, Some(tip + 3))] {
+                    h = h
+                        .apply(Action { template: t, prev: (p, q), ts_class: 2 })
+                        .expect("room C construction must be authorised");
+                }
+                h.base_len = h.nodes.len();
+                h.base_kind = 'C';
+                h.trail.clear();
+                h
+            }
+        }
+    }
+
     /// candidate prev nodes: the base tip and everything appended
     pub fn prev_candidates(&self) -> Vec<usize> {
         (self.base_len - 1..self.nodes.len()).collect()
@@ -175,8 +219,9 @@ impl History {
     pub fn apply(&self, a: Action) -> Option<History> {
         let (_, sender, ty, sk, content) = TEMPLATES[a.template];
         let state = self.state_at(a.prev);
-        let k = self.nodes.len() - self.base_len;
-        let id = format!("${}:s1", NAMES[k % NAMES.len()]);
+        // appended events are numbered over the whole history (room C's construction included)
+        let k = self.nodes.iter().filter(|n| !n.id.starts_with("$b")).count();
+        let id = format!("${}{}:s1", NAMES[k % NAMES.len()], if k >= NAMES.len() { (k / NAMES.len()).to_string() } else { String::new() });
         let mut prev = vec![self.nodes[a.prev.0].id.clone()];
         if let Some(b) = a.prev.1 {
             prev.push(self.nodes[b].id.clone());
@@ -254,9 +299,23 @@ impl History {
         json!({
             "v": self.v,
             "base_with_power_levels": self.store.evs.contains_key("$b2:s1"),
+            "base_kind": self.base_kind.to_string(),
             "trail": self.trail.iter().map(Action::to_json).collect::<Vec<_>>(),
             "events": self.nodes.iter().map(|n| self.store.ev(&n.id).to_json()).collect::<Vec<_>>(),
         })
+    }
+
+    pub fn from_json_trail(hj: &Value) -> Option<History> {
+        let trail: Vec<Action> = hj["trail"].as_array()?.iter().map(Action::from_json).collect();
+        let kind = match hj["base_kind"].as_str() {
+            Some(k) => k.chars().next()?,
+            None => if hj["base_with_power_levels"].as_bool()? { 'A' } else { 'B' },
+        };
+        let mut h = History::base_kind(hj["v"].as_u64()? as u8, kind);
+        for a in &trail {
+            h = h.apply(*a)?;
+        }
+        Some(h)
     }
 
     pub fn from_trail(v: u8, with_pl: bool, trail: &[Action]) -> Option<History> {
